@@ -127,3 +127,31 @@ void un(Rng& rng)
         }
     }
 }
+
+
+#if defined(VH_CMP_ONLY)
+// comparisons between a built-in integer and an elastic_integer, integer on either side
+template<int LD, class LN, class B>
+void cmpi(Rng& rng)
+{
+    using A = elastic_integer<LD, LN>;
+    using AR = _impl::rep_of_t<A>;
+    auto lv = evals<LD, LN>(rng);
+    auto rv = vals<B>(rng, 4 * scale_from_env(), sizeof(B) > 4 ? 11 : 5);
+    for (I l : lv)
+        for (B b : rv) {
+            A a = _impl::from_rep<A>(AR(l));
+#define EIC(SIDE, NAME, EXPR) \
+    { \
+        printf(VH_ETABLE " eicmp " SIDE " " NAME " %d %s %s ", LD, tn<LN>().c_str(), tn<B>().c_str()); \
+        pri(l); \
+        putchar(' '); \
+        prv(b); \
+        fputs(" => ", stdout); \
+        VH_RUN(EXPR, print_tv) \
+    }
+            EIC("r", "lt", a < b) EIC("r", "le", a <= b) EIC("r", "gt", a > b) EIC("r", "ge", a >= b) EIC("r", "eq", a == b) EIC("r", "ne", a != b)
+            EIC("l", "lt", b < a) EIC("l", "le", b <= a) EIC("l", "gt", b > a) EIC("l", "ge", b >= a) EIC("l", "eq", b == a) EIC("l", "ne", b != a)
+        }
+}
+#endif
